@@ -51,15 +51,15 @@ func vfCheckValue(key string, v []byte) (uint32, error) {
 }
 
 func TestVfC07MemCacheHammer(t *testing.T) {
-	st := vfkit.Stats("TestVfC07MemCacheHammer", "generated workloads (2-8 goroutines x 200-2000 ops, 2-40 keys, capacity 1-64 KiB, TTL 1 ms-2 s, value size 16-600, setNX mix) on the memory cache under -race; oracle: every hit returns a value stored under that key with its own stored/expire times, versions per key never go backwards for plain Set; non-trivial = workload with evictions or expiries (misses after stores)")
+	st := vfkit.Stats("TestVfC07MemCacheHammer", "generated workloads (2-16 goroutines x 600-20000 ops, 2-400 keys, capacity 4-256 KiB, TTL 1 ms-2 s, value size 16-4096, setNX mix) on the memory cache under -race; oracle: every hit returns a value stored under that key with its own stored/expire times, versions per key never go backwards for plain Set; non-trivial = workload with evictions or expiries (misses after stores)")
 	defer vfkit.Flush()
 	rapid.Check(t, func(t *rapid.T) {
-		capKiB := rapid.SampledFrom([]int{1, 4, 16, 64}).Draw(t, "capKiB")
-		nKeys := rapid.IntRange(2, 40).Draw(t, "nKeys")
-		nG := rapid.IntRange(2, 8).Draw(t, "goroutines")
-		nOps := rapid.SampledFrom([]int{200, 600, 2000}).Draw(t, "ops")
+		capKiB := rapid.SampledFrom([]int{4, 16, 64, 256}).Draw(t, "capKiB")
+		nKeys := rapid.SampledFrom([]int{2, 7, 40, 400}).Draw(t, "nKeys")
+		nG := rapid.IntRange(2, 16).Draw(t, "goroutines")
+		nOps := rapid.SampledFrom([]int{600, 4000, 20000}).Draw(t, "ops")
 		ttl := rapid.SampledFrom([]time.Duration{time.Millisecond, 20 * time.Millisecond, 2 * time.Second}).Draw(t, "ttl")
-		vsize := rapid.SampledFrom([]int{16, 100, 600}).Draw(t, "valueSize")
+		vsize := rapid.SampledFrom([]int{16, 600, 4096}).Draw(t, "valueSize")
 		nxPct := rapid.SampledFrom([]int{0, 30, 100}).Draw(t, "nxPct")
 		seeds := rapid.SliceOfN(rapid.Uint32(), nG, nG).Draw(t, "seeds")
 
